@@ -68,6 +68,10 @@ func NewScanner(proto string, opts ...ScannerOption) *Scanner {
 	ec := &elasticClient{
 		client: &http.Client{
 			Transport: tr,
+			// a redirect leads to a host that is not a scan target
+			CheckRedirect: func(*http.Request, []*http.Request) error {
+				return http.ErrUseLastResponse
+			},
 		},
 		proto:       proto,
 		dataTimeout: defaultDataTimeout,
